@@ -9,7 +9,8 @@ namespace Vsgm.Base
 open Vsgm Vsgm.Verdict
 
 /-- the checker's `remove` test on the two shapes a removal of one optional token produces -/
-theorem removeOk_two (av tv : Str) (h : tv ∈ redundantKeywords ∨ av = tv ∨ av = s "end" ∨ av ∈ redundantKeywords) :
+theorem removeOk_two (av tv : Str)
+    (h : tv ∈ redundantKeywords ∨ (isWord tv = true ∧ (av = tv ∨ av = s "end" ∨ av ∈ redundantKeywords))) :
     removeOk 1 [av, tv] [av] = true := by
   have hx : Trace.extrasP none [av] [av, tv] = some [(some av, tv)] := by simp [Trace.extrasP]
   unfold removeOk
@@ -17,11 +18,11 @@ theorem removeOk_two (av tv : Str) (h : tv ∈ redundantKeywords ∨ av = tv ∨
   simp only [List.all_cons, List.all_nil, Bool.and_true, Bool.and_eq_true, Bool.or_eq_true,
       decide_eq_true_eq, List.mem_singleton, List.length_singleton, beq_iff_eq, perEdit]
   refine ⟨?_, by simp⟩
-  rcases h with h | h | h | h
+  rcases h with h | ⟨hw, h | h | h⟩
   · exact Or.inl (Or.inl h)
-  · exact Or.inl (Or.inr h.symm)
-  · exact Or.inr (Or.inl h)
-  · exact Or.inr (Or.inr h)
+  · exact Or.inl (Or.inr ⟨hw, h.symm⟩)
+  · exact Or.inr ⟨hw, Or.inl h⟩
+  · exact Or.inr ⟨hw, Or.inr h⟩
 
 theorem removeOk_one (tv : Str) (h : tv ∈ redundantKeywords) : removeOk 1 [tv] [] = true := by
   have hx : Trace.extrasP none ([] : List Str) [tv] = some [(none, tv)] := by simp [Trace.extrasP]
